@@ -119,6 +119,8 @@ PROPS = {
     ),
     "C05": dict(
         level="proof",
+        extra_lean_targets=["LdpcV.Props.C05HL"],
+        extra_prop_files=["LdpcV/Props/C05HL.lean"],
         trusted_base=[KERNEL, CORR,
                       "f64 inputs of the quantiser are modelled exactly on the IEEE-754 bit pattern (8*x exact, round half away from zero, saturating `as i8`, NaN -> 0)",
                       "float variable rules (sum / total minus own) are not modelled"],
@@ -133,7 +135,8 @@ PROPS = {
         partial=["float rules: the variable rule is compared bit for bit (Float / Float32 instances) and the layered primitive against 'flooding rule on the "
                  "extrinsic values, then add' (sequences of updates on one arithmetic object, tanh-domain tolerance) — both without a theorem beyond the real-semantics "
                  "identities of C04Real",
-                 "envelope invariant |var| <= 127*(deg+1) over whole layered iterations (end-to-end no-overflow for the 4 HL 8-bit names) not yet proved"],
+                 "the whole-iteration envelope |var| <= 127*(deg+1) and the end-to-end no-overflow / history-independence of the layered 8-bit decoders are "
+                 "proved for variable degree <= 254 (C05HL), the property asks for 200"],
     ),
     "C08": dict(
         level="proof",
